@@ -173,13 +173,15 @@ Vals(sl)  == [i \in 1..Len(sl.issued) |-> sl.issued[i].v]
 \* C01: the item read at a pushed index is the pushed value
 RoundTrip == \A s \in SlotIds : Reads(slots[s]) = Vals(slots[s])
 
-\* C02: whatever extends a slot's issued list leaves every earlier read unchanged
-IsPrefixOf(a, b) == Len(a) <= Len(b) /\ SubSeq(b, 1, Len(a)) = a
+\* C02: a push or a reservation leaves every earlier read of its target unchanged.
+\* (Stated over the last operation rather than over "issued' extends issued": values of different
+\* variants are not comparable in TLC, and the operation is what the property is about.)
+LastOp == path'[Len(path')]
 AppendOnly ==
-  [][\A s \in SlotIds :
-       IsPrefixOf(slots[s].issued, slots'[s].issued) =>
-         \A i \in 1..Len(slots[s].issued) :
-           ReadR(Sh, slots'[s].st, slots[s].issued[i].idx) = ReadR(Sh, slots[s].st, slots[s].issued[i].idx)]_vars
+  [][LastOp.op \in {"push", "push_from", "reserve_items", "reserve_regions"} =>
+       LET t == IF LastOp.op = "push_from" THEN LastOp.d ELSE LastOp.s
+       IN  \A i \in 1..Len(slots[t].issued) :
+             ReadR(Sh, slots'[t].st, slots[t].issued[i].idx) = ReadR(Sh, slots[t].st, slots[t].issued[i].idx)]_vars
 
 \* structure of every Level-B state
 Shaped == \A s \in SlotIds : WellFormed(Sh, slots[s].st)
@@ -255,7 +257,6 @@ CloneOntoLaw == \A s \in SlotIds : \A i \in 1..Len(slots[s].issued) : \A ti \in 
                   CloneOnto(Sh, slots[s].issued[i].v, DomAt(ti)) = slots[s].issued[i].v
 
 \* C18: used bytes never decrease on push (the last operation is visible in path')
-LastOp == path'[Len(path')]
 UsedMonotone ==
   [][LastOp.op \in {"push", "push_from"} =>
        LET t == IF LastOp.op = "push" THEN LastOp.s ELSE LastOp.d
